@@ -208,6 +208,35 @@ pub fn run_gov(gov: &str, topics: &[&str], k128: bool, lens: &[usize], depth: &D
         });
       }
     }
+    // the remote endpoints are unmatched and matched again while their participants live on: what is sent
+    // afterwards must decode like before (twice: stale state of the first re-match must not spoil the second)
+    for round in 1..=2 {
+      st.cases += 1;
+      let case = format!("{gov} {topic} after re-match {round}");
+      if let Err(e) = p.rematch(f, false) {
+        st.problems.push(Problem { key: format!("C16:rematch:bring-up:{lvl}"), case, what: format!("matching the same endpoints again failed: {e}") });
+        break;
+      }
+      st.key_registrations += 4;
+      let len = 5 + round;
+      let (sn, dgs) = p.send_real(f, len, false);
+      st.encodings += dgs.len() as u64;
+      let before = p.cache(f);
+      for d in &dgs {
+        p.inject(d);
+      }
+      let new: Vec<_> = p.cache(f).into_iter().filter(|x| !before.contains(x)).collect();
+      let mut want = vec![0u8, 1, 0, 0];
+      want.extend(body_bytes(len));
+      tally(&mut st, if new.len() == 1 { "data" } else { "rejected" });
+      if !(new.len() == 1 && new[0].0 == sn && strip_pad(&new[0].1, &want) == &want[..]) {
+        st.problems.push(Problem {
+          key: format!("C16:roundtrip:after-rematch:{lvl}"),
+          case,
+          what: format!("after the endpoints were unmatched and matched again the sample written (sn {sn}) did not arrive at the authorised reader: cache gained {:?}", new.iter().map(|(s, b)| (*s, b.len())).collect::<Vec<_>>()),
+        });
+      }
+    }
   }
   st
 }
